@@ -842,6 +842,22 @@ func proxyGen(prop string) func(c *Ctx) {
 		if c.Thorough() {
 			n = 4000
 		}
+		// batches of every size around the powers of two and the round numbers a worker pool, window or chunk might
+		// use: each member keeps its own position and id whatever the size
+		sizes := []int{9, 10, 11, 15, 16, 17, 19, 20, 21, 24, 25, 26, 31, 32, 33, 49, 50, 51, 63, 64, 65, 99, 100, 101, 127, 128, 129, 199, 200, 201, 255, 256, 257}
+		if c.Thorough() {
+			sizes = append(sizes, 499, 500, 501, 511, 512, 513, 999, 1000, 1001, 1023, 1024, 1025)
+		}
+		for _, k := range sizes {
+			var arr []any
+			for q := 0; q < k; q++ {
+				m := genMember(r, rg)
+				m["id"] = json.Number(fmt.Sprint(1000 + q))
+				arr = append(arr, m)
+			}
+			b, _ := json.Marshal(arr)
+			addProxyCase(c, rg, b, proxyScript(r), nil, "batch.sizes")
+		}
 		if prop == "C09" {
 			for i := 0; i < n; i++ {
 				if i == n/2 || i == n*3/4 {
